@@ -63,6 +63,8 @@ func Catalogue() []NamedTree {
 		wh.L(strings.Repeat("l", 140), strings.Repeat("n", 150)),
 		wh.F(strings.Repeat("p", 90)+"/"+strings.Repeat("q", 90)+"/"+strings.Repeat("r", 90)+"/leaf", "=over 255"),
 		wh.F("short", "=s"),
+		// a symlink destination of 1811 bytes (PATH_MAX is 4096)
+		wh.L("long-dest", strings.TrimSuffix(strings.Repeat(strings.Repeat("x", 150)+"/", 12), "/")),
 	})
 	{
 		var b wh.Build
